@@ -569,3 +569,14 @@ impl Session {
         }
     }
 }
+
+/// blots-core appends a record to a process-global vector on every function call and never
+/// trims it (only `--profile` reads it). A long-lived embedding simply lets it grow; the harness
+/// does the same up to a bound, so that state which depends on its size stays observable, and
+/// drops it beyond that to keep memory bounded.
+pub fn trim_call_stats() {
+    let too_big = blots_core::functions::FUNCTION_CALLS.lock().map(|v| v.len() > 1_000_000).unwrap_or(true);
+    if too_big {
+        blots_core::functions::clear_function_call_stats();
+    }
+}
